@@ -154,16 +154,25 @@ func kernelCases(c *Ctx) {
 		c.Nontrivial("aiv " + strings.Join(sig, "+"))
 	}
 
-	// BuildHuffmanTable + ReadSymbol vs the canonical code of the specification
-	for i := 0; i < 300*scale; i++ {
+	// BuildHuffmanTable + ReadSymbol vs the table model (I) and the canonical code tree (S):
+	// 8-bit root with second-level tables (lengths up to 15), 8-bit root with lengths <= 8 and the 7-bit
+	// root of the code-length code (lengths <= 7) — the two cases lut_decode_eq_canonical_root covers
+	for i := 0; i < 330*scale; i++ {
+		root, maxLen := 8, 15
 		alphabet := rng.Pick(2, 19, 40, 256, 280, 280+2048)
-		n := rng.Range(1, min(alphabet, 300))
+		switch i % 3 {
+		case 1:
+			maxLen = 8
+		case 2:
+			root, maxLen, alphabet = 7, 7, 19
+		}
+		n := rng.Range(1, min(min(alphabet, 300), 1<<maxLen))
 		lens := make([]int, alphabet)
 		var ls []int
 		if n == 1 {
-			ls = []int{rng.Range(1, 15)}
+			ls = []int{rng.Range(1, maxLen)}
 		} else {
-			ls = randomCompleteLengths(rng, n, 15)
+			ls = randomCompleteLengths(rng, n, maxLen)
 		}
 		for _, l := range ls {
 			for {
@@ -175,24 +184,30 @@ func kernelCases(c *Ctx) {
 			}
 		}
 		if i%25 == 0 && n > 1 {
-			lens[rng.Intn(alphabet)] = rng.Range(1, 15) // most likely an incomplete / over-subscribed code
+			lens[rng.Intn(alphabet)] = rng.Range(1, maxLen) // most likely an incomplete / over-subscribed code
 		}
 		var sb strings.Builder
 		for _, l := range lens {
 			fmt.Fprintf(&sb, " %d", l)
 		}
-		for k := 0; k < 4; k++ {
-			bits := uint32(rng.U64())
+		windows := []uint32{0, 0xffffffff, uint32(rng.U64()), uint32(rng.U64()), uint32(rng.U64()), uint32(rng.U64())}
+		if i%10 == 0 { // a run of consecutive windows: neighbouring table slots
+			base := uint32(rng.U64())
+			for k := uint32(0); k < 16; k++ {
+				windows = append(windows, base+k)
+			}
+		}
+		for _, bits := range windows {
 			got := guard(func() string {
-				v, used, ok := webp.VerifLosslessHuffmanDecode(8, lens, bits)
+				v, used, ok := webp.VerifLosslessHuffmanDecode(root, lens, bits)
 				if !ok {
 					return "ERR"
 				}
 				return fmt.Sprintf("%d %d", v, used)
 			})
-			c.Case(fmt.Sprintf("huf %d%s", bits, sb.String()), got)
+			c.Case(fmt.Sprintf("huf %d %d%s", root, bits, sb.String()), got)
 			c.D.Evaluations++
-			c.Count("kernel:huffman-lut-vs-canonical")
+			c.Count(fmt.Sprintf("kernel:huffman-lut:root%d-maxlen%d", root, maxLen))
 		}
 	}
 
